@@ -40,6 +40,8 @@ class HostGen:
         self.allow_until = allow_until
         self.allow_quantum = allow_quantum
         self.p_cond_regmeas = 0.04
+        self.manual_registers = False
+        self.all_mr = []
         self.templates = []       # template names for rotation numerators (C06)
         self.reg_operands = True   # may register handles be used as operands (they are segment-scoped)
 
@@ -163,6 +165,7 @@ class HostGen:
         return {"op": "array", "name": nm, "len": ln}
 
     def g_reg(self, sc, depth, mine, top):
+        self.manual_registers = True
         nm = self.name("r")
         sc.regs.append(nm)
         return {"op": "reg", "name": nm, "init": self.rng.choice(SMALL)}
@@ -214,9 +217,17 @@ class HostGen:
             sc.arrays[f] = {"len": 1, "full": False}
             to = {"kind": "new", "name": f}
             sc.futs.append(f)
+        elif k == "reg" and self.all_mr and self.unconditional and r.random() < 0.3:
+            # measure again into a RegFuture handle that already exists (possibly from an earlier flush segment)
+            f = r.choice(self.all_mr)
+            to = {"kind": "reg", "name": f, "reuse": True}
+            if self.reg_operands and f not in sc.regs:
+                sc.regs.append(f)
         elif k == "reg":
             f = self.name("mr")
             to = {"kind": "reg", "name": f}
+            if self.unconditional:
+                self.all_mr.append(f)
             if self.reg_operands:
                 sc.regs.append(f)
         else:
@@ -270,8 +281,11 @@ class HostGen:
         c = self.body_scope(sc)
         c.vars[var] = [start + step * j for j in range(count)]
         body = self.block(c, depth + 1, r.randrange(1, 4))
-        return {"op": "loop", "var": var, "start": start, "stop": start + step * count, "step": step,
-                "form": r.choice(["ctx", "cb"]), "body": body}
+        st = {"op": "loop", "var": var, "start": start, "stop": start + step * count, "step": step,
+              "form": r.choice(["ctx", "cb"]), "body": body}
+        if top and not self.manual_registers and r.random() < 0.25:
+            st["reg"] = r.choice(["R0", "R0", "R1", "R5", "R15"])   # explicit loop register (nothing else holds registers here)
+        return st
 
     def g_foreach(self, sc, depth, mine, top):
         r = self.rng
@@ -316,7 +330,13 @@ class HostGen:
             ent = {"kind": "entry", "array": a, "idx": r.randrange(sc.arrays[a]["len"])}
             body += [{"op": "add", "target": ent, "other": r.choice([-1, -1, -2, 1]), "mod": None}]
             exit_ = {"val": copy.deepcopy(ent), "atmost": r.choice([0, 1, -1, 2])}
-        return {"op": "until", "max": mx, "var": var, "body": body, "exit": exit_}
+        st = {"op": "until", "max": mx, "var": var, "body": body, "exit": exit_}
+        full = [a for a, d in sc.arrays.items() if d["full"] and not d.get("ro")]
+        if full and r.random() < 0.35:
+            a = r.choice(full)
+            st["cleanup"] = [{"op": "add", "target": {"kind": "entry", "array": a, "idx": r.randrange(sc.arrays[a]["len"])},
+                              "other": r.choice([1, 2, {"kind": "var", "name": var}]), "mod": r.choice([None, 7])}]
+        return st
 
     # ---- whole program ----------------------------------------------------------------------------
     def program(self, n_top: int, p_flush: float = 0.3) -> List[dict]:
@@ -366,6 +386,8 @@ def _well_formed(prog) -> bool:
                 declared.add(st["var"])
             if "body" in st:
                 decl(st["body"])
+            if st.get("cleanup"):
+                decl(st["cleanup"])
     decl(prog)
 
     def ok_val(v):
@@ -397,6 +419,8 @@ def _well_formed(prog) -> bool:
                 if k in st and st[k] not in quts:
                     return False
             if "body" in st and not walk(st["body"]):
+                return False
+            if st.get("cleanup") and not walk(st["cleanup"]):
                 return False
         return True
     return walk(prog)
